@@ -75,6 +75,7 @@ func fileAlphabet(u []fnode) []fop {
 		ops = append(ops, fop{kind: "push", node: i})
 	}
 	ops = append(ops, fop{kind: "badpush", node: 2}, fop{kind: "badpush", node: 3},
+		fop{kind: "badpush", node: 1}, // mismatching bytes under a second name of content that may already be stored under the first
 		fop{kind: "tag", node: 5, ref: "a"}, fop{kind: "tag", node: 0, ref: "a"}, fop{kind: "tag", node: 1, ref: "b"}, fop{kind: "tag", node: 5, ref: ""})
 	return ops
 }
